@@ -306,6 +306,66 @@ def check_solve(case):
 
 
 # ----------------------------------------------------------------------------
+# clause: ill-conditioned, non-normal systems with a consistent right-hand side.  The residual statements of the
+# property do not depend on cond(A): full-dimension GMRES with (modified) Gram-Schmidt is backward stable, so after
+# n cycles ||b - Ax|| <= c n u (||A|| ||x|| + ||b||) whatever the conditioning; what conditioning changes is the
+# ERROR x - x_true, which is not claimed here.
+
+
+@st.composite
+def illcond_cases(draw, tier):
+    n = draw(st.integers(3, 8 if tier == "quick" else 10))
+    kexp = draw(st.sampled_from([6, 8, 10, 12]))
+    s = np.array([10.0 ** (-kexp * i / (n - 1)) for i in range(n)])
+    if draw(st.booleans()):
+        s[1:-1] = np.sort(10.0 ** (-kexp * np.array(draw(st.lists(st.integers(0, 16), min_size=n - 2, max_size=n - 2))) / 16.0))[::-1]
+    A = draw(gen.matrix_with_svals(n, n, s))                  # U diag(s) W^H with independent unitary factors
+    xt = draw(gen.qmat(n, 1, patterns=("generic", "int", "full53")))
+    if not xt.any():
+        xt[0, 0, 0] = 1.0
+    e = draw(st.sampled_from([0, 0, -5, 5]))
+    A = A * 10.0 ** e
+    return {"A": A, "xt": xt, "b": ref.qmm(A, xt), "kexp": kexp, "tol": 10.0 ** draw(st.integers(-13, -6)),
+            "sparse": draw(st.booleans())}
+
+
+def check_illcond(case):
+    out = Out()
+    A, b, tol = case["A"], case["b"], case["tol"]
+    n = A.shape[0]
+    out.label(f"cond=1e{case['kexp']}", "sparse" if case["sparse"] else "dense")
+    site = "QGMRES(ill-conditioned, b = A x_true)"
+    ok, r = out.call(site, solve, A, b, tol, None, None, case["sparse"])
+    if not ok:
+        return out
+    x, info, unchanged = r
+    out.true(site + ":arguments unchanged", unchanged, "A or b modified by solve")
+    if not out.true(site + ":x shape", x.shape == b.shape, f"{x.shape}"):
+        return out
+    rr = common_info_checks(out, site, A, b, x, info, tol, 1.0, None)
+    if rr is None:
+        return out
+    nb = ref.fro(b)
+    keff = ref.fro(A) * max(ref.fro(x), ref.fro(case["xt"])) / nb + 1.0
+    floor = 1e3 * n * U_ * keff
+    out.le(site + ":solves within n cycles (backward stable residual)", rr, max(tol * (1 + 1e-6), floor),
+           f"tol={tol:g} ||A|| ||x||/||b||={keff:.2e}")
+    if tol > 10 * floor:
+        out.true(site + ":converged reported when solved", bool(info.get("converged")),
+                 f"residual {rr:.2e} < tol {tol:g} but converged={info.get('converged')}")
+    it = info.get("iterations")
+    out.true(site + ":iterations <= n", isinstance(it, (int, np.integer)) and 0 <= it <= n, f"iterations={it!r}")
+    hist = info.get("residual_history") or []
+    vals = [float(h[2]) for h in hist if len(h) >= 3]
+    if len(vals) >= 2:
+        worst = max(vals[i + 1] - vals[i] * (1 + 1e-9) for i in range(len(vals) - 1))
+        out.le(site + ":residual history non-increasing", worst, floor, f"history {vals[:8]}")
+    out.nontrivial = True
+    out.sample = {"n": n, "cond_exp": case["kexp"], "true_rel_res": rr, "iterations": int(info.get("iterations", -1))}
+    return out
+
+
+# ----------------------------------------------------------------------------
 # clause: per-cycle optimality chain (no preconditioner)
 
 
@@ -582,6 +642,7 @@ PROPERTY = Property(
     clauses=[
         Clause("solve", check_solve, strategy=systems, budget={"quick": 500, "thorough": 6000}),
         Clause("solve_long_dimension", check_solve, strategy=long_systems, budget={"quick": 16, "thorough": 160}, shrink=False),
+        Clause("solve_ill_conditioned", check_illcond, strategy=illcond_cases, budget={"quick": 200, "thorough": 3000}),
         Clause("cycle_optimality", check_chain, strategy=chain_cases, budget={"quick": 150, "thorough": 2000}),
         Clause("invariance", check_invariance, strategy=invariance_cases, budget={"quick": 150, "thorough": 2000}),
         Clause("faults", check_fault, strategy=fault_cases, budget={"quick": 150, "thorough": 2000}),
